@@ -908,6 +908,8 @@ def run(repo: Repo, ctx) -> None:
     _r9(repo, ctx)
     _r10(repo, ctx)
     _r11(repo, ctx)
+    _r12(repo, ctx)
+    _r13(repo, ctx)
 
 
 
@@ -965,3 +967,101 @@ def _r11(repo: Repo, ctx) -> None:
                        f'value stored with it cannot be loaded back from '
                        f'JSON or replayed from the CONFIGURE script',
                        f.loc, sample=f'{u} accepted')
+
+
+
+def _r12(repo: Repo, ctx) -> None:
+    """C19.R12 what is recorded next to a stored value -- its `source` and
+    `scope` -- describes the operation that stored it, never the entry it
+    replaces.  Persisting filters on it (`_save_system_overrides` keeps
+    `v.source == 'system override'`); a CONFIGURE INSTANCE SET that inherits
+    the source of the config-file value it overrides is dropped from the
+    stored overrides and the value is gone after a reload."""
+    from ..shapes import derives_from
+    ctx.floor('C19.R12', 2)
+    sv = repo.func(f'{OPS}.set_value')
+    ctx.saw(sv)
+    params = sv.params()
+    if not params:
+        raise AnalysisError('C19.R12: set_value has no parameters')
+    store = params[0]
+    ctor = [c for c in ast.walk(sv.node) if isinstance(c, ast.Call)
+            and (call_name(c) or '').split('.')[-1] == 'SettingValue']
+    if len(ctor) != 1:
+        raise AnalysisError(f'C19.R12: set_value builds {len(ctor)} '
+                            f'SettingValue records')
+    for field in ('source', 'scope'):
+        v = kwarg(ctor[0], field)
+        if v is None:
+            raise AnalysisError(f'C19.R12: SettingValue(.., {field}=..) '
+                                f'not found in set_value')
+        names = sorted({x.id for x in ast.walk(v) if isinstance(x, ast.Name)})
+        direct = any(n == store for n in names)
+        tainted = direct or derives_from(sv.node, names, store)
+        ctx.ob('C19.R12', f'set_value:{field}-describes-the-operation',
+               not tainted,
+               f'set_value records `{field}={norm(v)}`, which is derived '
+               f'from the map being updated (`{store}`): a value set at one '
+               f'scope / by one source is filed under the source of the '
+               f'entry it replaces, and the serialisers that select by '
+               f'{field} (stored system overrides, DESCRIBE) leave it out',
+               f'{sv.module.rel()}:{ctor[0].lineno}',
+               sample=f'{field}={norm(v)}')
+
+
+
+def _r13(repo: Repo, ctx) -> None:
+    """C19.R13 the compilation-config blob folds its scopes so that a later
+    (more specific) argument overrides an earlier one.  The callers pass
+    (instance, database, session); the blob is what the compiler decodes and
+    what the compile cache is keyed by.  Two folds are understood: an
+    in-order loop of `.update(..)` into one dict (last wins) and a
+    `ChainMap`, whose *first* mapping wins and therefore has to be built
+    over the reversed sequence."""
+    ctx.floor('C19.R13', 1)
+    cls = repo.cls('edb.server.compiler.sertypes.CompilationConfigSerializer')
+    f = repo.find_method(cls.qualname, 'encode_configs')
+    if f is None:
+        raise AnalysisError('C19.R13: encode_configs not found')
+    ctx.saw(f)
+    va = f.node.args.vararg.arg if f.node.args.vararg else None
+    if va is None:
+        raise AnalysisError('C19.R13: encode_configs takes no *configs')
+    verdict = None
+    why = ''
+    for n in ast.walk(f.node):
+        if isinstance(n, ast.For) and any(
+                isinstance(x, ast.Name) and x.id == va
+                for x in ast.walk(n.iter)):
+            upd = [c for st in n.body for c in ast.walk(st)
+                   if isinstance(c, ast.Call)
+                   and isinstance(c.func, ast.Attribute)
+                   and c.func.attr == 'update']
+            sets = [c for st in n.body for c in ast.walk(st)
+                    if isinstance(c, ast.Call)
+                    and isinstance(c.func, ast.Attribute)
+                    and c.func.attr == 'setdefault']
+            rev = any(isinstance(c, ast.Call) and norm(c.func) == 'reversed'
+                      for c in ast.walk(n.iter)) or \
+                '[::-1]' in norm(n.iter).replace(' ', '')
+            if upd and not sets:
+                verdict, why = (not rev), f'update loop over {norm(n.iter)}'
+            elif sets and not upd:
+                verdict, why = rev, f'setdefault loop over {norm(n.iter)}'
+        if isinstance(n, ast.Call) and (call_name(n) or '').split(
+                '.')[-1] == 'ChainMap':
+            rev = any(isinstance(c, ast.Call) and norm(c.func) == 'reversed'
+                      for a in n.args for c in ast.walk(a)) or any(
+                '[::-1]' in norm(a).replace(' ', '') for a in n.args)
+            verdict, why = rev, f'{norm(n)[:70]} (first mapping wins)'
+    if verdict is None:
+        raise AnalysisError('C19.R13: the fold of the scopes in '
+                            'encode_configs is neither an update loop nor a '
+                            'ChainMap: cannot decide which scope wins')
+    ctx.ob('C19.R13', 'encode_configs:later-scope-wins', verdict,
+           f'encode_configs folds its arguments with {why}: the value of '
+           f'the earlier, less specific scope (instance before database '
+           f'before session) ends up in the blob, so the compiler sees the '
+           f'instance value of a setting the session overrides and two '
+           f'sessions that differ only in that override share a cache key',
+           f.loc, sample=why)
